@@ -939,6 +939,25 @@ class _CondVarFold(ast.NodeTransformer):
     visit_AsyncFunctionDef = visit_FunctionDef
 
 
+def fold_kwargs_dicts(tree):
+    """`f(a=1, **{'b': x, 'c': y})` -> `f(a=1, b=x, c=y)`: a dict display with identifier keys unpacked into a call is the keywords themselves
+    (the form a helper that gathers shared keyword arguments takes once it has been inlined)."""
+    for n in ast.walk(tree):
+        if isinstance(n, ast.Call) and any(k.arg is None for k in n.keywords):
+            out = []
+            seen = {k.arg for k in n.keywords if k.arg is not None}
+            for k in n.keywords:
+                d = k.value
+                if k.arg is None and isinstance(d, ast.Dict) and d.keys and all(isinstance(x, ast.Constant) and isinstance(x.value, str) and x.value.isidentifier() for x in d.keys) \
+                        and len({x.value for x in d.keys}) == len(d.keys) and not ({x.value for x in d.keys} & seen):
+                    for kk, vv in zip(d.keys, d.values):
+                        out.append(ast.copy_location(ast.keyword(arg=kk.value, value=vv), vv))
+                else:
+                    out.append(k)
+            n.keywords = out
+    return tree
+
+
 def lower_ifexp(tree):
     tree = _AssertRaise().visit(tree)
     tree = _CondVarFold().visit(tree)
